@@ -30,7 +30,7 @@ Scenarios == [env : SUBSET Fields, secretfile : BOOLEAN, file : SUBSET Fields]
 \* variable's text VERBATIM -- the layer does not re-interpret text that happens to look like a number or a boolean ("007" stays "007").
 EnvFields == {"timeout", "address", "auth_secret", "limit", "duration", "allow_v1", "allow_v2", "server_id"}
 TextFields == {"address", "auth_secret", "server_id"}
-EnvResolved(f, given) == given          \* what Config::read() must hold for field f when only the environment defines it, as text
+EnvResolved(f, given) == given          \* what Config::read() must hold for field f when the environment defines it (whatever a file underneath says), as text
 \* design facts
 EnvWins == \A sc \in Scenarios : \A f \in sc.env : Resolve(sc, f) = "env:" \o f
 SecretFileBeatsFile == \A sc \in Scenarios : (sc.secretfile /\ "auth_secret" \notin sc.env) => Resolve(sc, "auth_secret") = "secretfile"
